@@ -84,7 +84,7 @@ def reexpress(pr, rng):
     return p2
 
 
-def library_like(pr2, phys, du_old, rng):
+def library_like(pr2, phys, du_old, rng, ln_prior):
     import astropy.units as u
     import thejoker as tj
     cu = dict(P=scen.U(str(rng.choice(scen.TIME_UNITS))), omega=scen.U(str(rng.choice(["rad", "deg"]))),
@@ -95,7 +95,7 @@ def library_like(pr2, phys, du_old, rng):
     lib["omega"] = (phys["omega"] * u.rad).to(cu["omega"])
     lib["M0"] = (phys["M0"] * u.rad).to(cu["M0"])
     lib["s"] = (phys["s"] * du_old).to(cu["s"])
-    lib["ln_prior"] = np.arange(len(phys["P"])) + 0.5
+    lib["ln_prior"] = np.array(ln_prior, dtype="f8")        # the same recognisable values as the base library
     return lib, {k: str(v) for k, v in cu.items()}
 
 
@@ -124,7 +124,7 @@ def run_case(ctx, g):
     N = 40
     lib, phys = scen.make_library(rng, pr, N, units="canonical")
     pr2 = reexpress(pr, rng)
-    lib2, lib2_units = library_like(pr2, phys, pr.data_unit, rng)
+    lib2, lib2_units = library_like(pr2, phys, pr.data_unit, rng, np.asarray(lib["ln_prior"]))
     n = len(pr.merged()[0])
     cfac = float(pr.data_unit.to(pr2.data_unit))          # values in twin = values in base * cfac
     nontriv = (g["index"],) if (cfac != 1.0 or pr2.desc["P"]["unit"] != "day" or pr2.desc["K"].get("P0_unit", "day") != "day") else None
